@@ -82,9 +82,18 @@ Definition restore_missing (w : wallet) (d : cout) : wallet :=
                (co_cb d) (Some id) in
   with_log (with_outs w1 (save_out (w_outs w1) o)) (save_tx (w_log w1) t).
 
-Definition unspend (w : wallet) (o : orec) : wallet :=
+(** the record a repair writes back: Unspent, at the height (and, for a coinbase, with the lock
+    height) of the chain output it matches — since the [fix:] of scan.rs; before it the record
+    kept the height it had, e.g. that of a block since reorganised away *)
+Definition repaired (chain : list cout) (o : orec) : orec :=
+  match find (fun d => same_commit o d) chain with
+  | Some d => mkO (r_root o) (r_key o) (r_mmr o) (r_value o) Unspent (co_height d)
+                  (if r_cb o then co_lock d else r_lock o) (r_cb o) (r_tx o)
+  | None => set_status o Unspent
+  end.
+Definition unspend (chain : list cout) (w : wallet) (o : orec) : wallet :=
   let w1 := cancel_entry_of w o in
-  with_outs w1 (save_out (w_outs w1) (set_status o Unspent)).
+  with_outs w1 (save_out (w_outs w1) (repaired chain o)).
 
 (** classification against the snapshot of the wallet's records taken before any repair *)
 Definition accidental (snap : list orec) (chain : list cout) : list orec :=
@@ -117,12 +126,12 @@ Definition restore_indices (w : wallet) (found : list (N * N)) : wallet :=
 (** scan::scan given the seed's outputs found on chain (in PMMR order) *)
 Definition scan_repair (w : wallet) (chain : list cout) (delete_unconfirmed : bool) : wallet :=
   let snap := w_outs w in
-  let w1 := fold_left unspend (accidental snap chain) w in
+  let w1 := fold_left (unspend chain) (accidental snap chain) w in
   let ms := missing snap chain in
   let w2 := fold_left restore_missing ms w1 in
   let w3 :=
     if delete_unconfirmed then
-      let wa := fold_left unspend (locked_on_chain snap chain) w2 in
+      let wa := fold_left (unspend chain) (locked_on_chain snap chain) w2 in
       fold_left (fun w o => let w' := cancel_entry_of w o in
                             with_outs w' (del_out (w_outs w') (r_key o) (r_mmr o)))
                 (filter (fun o => status_eqb (r_status o) Unconfirmed) snap) wa
